@@ -65,10 +65,30 @@ pub fn run_case(case: &Value) -> Value {
         Ok(Err(_)) => return json!({"id": case["id"], "res": "err"}),
         Err(_) => return json!({"id": case["id"], "res": "panic"}),
     };
+    // the same tokenizer restored from a serialised predictor (VaporettoTokenizer::deserialize_unchecked)
+    let mut tk2: Option<VaporettoTokenizer> = match model_from_json(&case["model"]) {
+        Ok(m2) => catch_unwind(AssertUnwindSafe(|| {
+            let p = Predictor::new(m2, false).ok()?;
+            let data = p.serialize_to_vec().ok()?;
+            let (t, rest) = unsafe { VaporettoTokenizer::deserialize_unchecked(&data, &ws) }.ok()?;
+            if rest.is_empty() {
+                Some(t)
+            } else {
+                None
+            }
+        }))
+        .unwrap_or(None),
+        Err(_) => None,
+    };
     let mut runs = vec![];
     for t in case["texts"].as_array().cloned().unwrap_or_default() {
         let text = cps_to_string(&t);
-        runs.push(json!({"tokens": stream_tokens(&mut tk, &text)}));
+        let a = stream_tokens(&mut tk, &text);
+        let b = match tk2.as_mut() {
+            Some(t2) => stream_tokens(t2, &text),
+            None => json!("no-deserialized-tokenizer"),
+        };
+        runs.push(json!({"tokens": a, "tokens_deserialized": b}));
     }
     json!({"id": case["id"], "res": "ok", "runs": runs})
 }
